@@ -130,15 +130,15 @@ func TestGovcStandinFilter(t *testing.T) {
 		}
 	}
 	type res struct {
-		Evaluations      int      `json:"evaluations"`
-		Distinct         int      `json:"distinct_nontrivial"`
-		WalkNeIncr       int      `json:"walk_differs_from_incremental_reference"`
-		WalkNeNaive      int      `json:"walk_differs_from_naive_reference"`
-		KnownClass       int      `json:"in_known_class_incr_ne_naive"`
-		OpenDisagree     int      `json:"open_disagrees_with_walk"`
-		OrderViolations  int      `json:"order_or_duplicate_violations"`
-		Samples          []string `json:"samples"`
-		Failures         []string `json:"failures"`
+		Evaluations     int      `json:"evaluations"`
+		Distinct        int      `json:"distinct_nontrivial"`
+		WalkNeIncr      int      `json:"walk_differs_from_incremental_reference"`
+		WalkNeNaive     int      `json:"walk_differs_from_naive_reference"`
+		KnownClass      int      `json:"in_known_class_incr_ne_naive"`
+		OpenDisagree    int      `json:"open_disagrees_with_walk"`
+		OrderViolations int      `json:"order_or_duplicate_violations"`
+		Samples         []string `json:"samples"`
+		Failures        []string `json:"failures"`
 	}
 	var r res
 	seen := map[string]bool{}
